@@ -1697,7 +1697,7 @@ def pattern_add64_const_2(context, tree, c0, c1):
     "con32",
     "CONSTU64",
     size=4,
-    condition=lambda x: x.value in range(4294967296),
+    condition=lambda x: x.value in range(2147483648),
 )
 def pattern_const32(context, tree):
     """Small 64 bit constants as a constant"""
